@@ -423,9 +423,11 @@ def excluded_set_native(ctx):
 
 # =================================================================== end-to-end bounded check at the property's observation point
 _PAT_POOL = ["gen/", "a.py", "src/*.py", "src/gen/*.py", "*/b.py", "build2/", "# a comment", "", "pkg/", "  c.py  ", "*.ts", "src/gen/",
-             ".hidden/", ".dot.py", ".scratch/", "scratch/", "dot.py", "./gen/", "/a.py", "..", ".", "*.obj.py"]
+             ".hidden/", ".dot.py", ".scratch/", "scratch/", "dot.py", "./gen/", "/a.py", "..", ".", "*.obj.py",
+             # bare names / globs WITHOUT a trailing slash: they match a directory's own path, not the files below it
+             "docs", "*.d", "src/gen", "pkg", "gen", "scratch", "src", "*gen", "conf.d", "src/g*"]
 _LINT_DIRS = ["src", "gen", "pkg", "build", "dist", ".venv", "node_modules", "x.egg-info", "build2", ".hidden", "htmlcov", ".scratch",
-              "scratch"]
+              "scratch", "docs", "conf.d"]
 _LINT_FILES = ["a.py", "b.py", "c.py", "d.pyc", "e.so", "shapes.obj.py", "codec.o.py", "model.class.py", ".dot.py", "lib.so.py", "dot.py"]
 
 
@@ -488,6 +490,12 @@ def lint_directory_bounded(ctx):
     try:
         from src.orchestrator.core import Orchestrator
         from src.linter_config.ignore import clear_ignore_parser_cache
+        from src.cli.utils import execute_linting_on_paths
+        try:
+            from loguru import logger as _lg
+            _lg.remove()
+        except BaseException:  # noqa
+            pass
         for i in range(n):
             tree = _gen_lint_tree(rng, 2)
             root = pathlib.Path(base) / f"p{i}"
@@ -542,6 +550,29 @@ def lint_directory_bounded(ctx):
                              budget=f"{n} trees", witness_confirmed=True,
                              witness={"tree": tree, "patterns": raw, "recursive": False, "got": sorted(got), "expected": sorted(want_flat)},
                              note=f"non-recursive: tree {tree} patterns {raw}: reported {sorted(got)}, expected {sorted(want_flat)}")]
+            # CLI plumbing with a directory argument AND explicitly named files (some beneath the directory), both
+            # recursion modes: every named, non-skipped file and every file the directory scan reaches is reported
+            all_files = _files_of(tree)
+            if all_files:
+                named = [root.joinpath(*pp) for pp in rng.sample(all_files, min(2, len(all_files)))]
+                named_ok = {os.path.relpath(str(f), str(root)) for f in named
+                            if os.path.relpath(str(f), str(root)) in {"/".join(pp) for pp in all_files}
+                            and not (any(code_excluded_dir(c) for c in f.relative_to(root).parts)
+                                     or f.suffix in COMPILED_SUFFIXES or ign_fresh(root, pats, f)) and f.name.endswith(".py")}
+                for rec in (True, False):
+                    clear_ignore_parser_cache()
+                    o3 = Orchestrator(project_root=root, config={})
+                    vs = execute_linting_on_paths(o3, [root] + named, rec)
+                    got = {os.path.relpath(v.file_path, str(root)) for v in vs if v.rule_id.startswith("magic-numbers")}
+                    exp = (want if rec else want_flat) | named_ok
+                    cases += 1
+                    if got != exp:
+                        return [dict(name=name, kind="bounded", verdict="refuted", carries=True, tool="real-tree lint runs", cases=cases,
+                                     budget=f"{n} trees", witness_confirmed=True,
+                                     witness={"tree": tree, "patterns": raw, "recursive": rec, "explicit_files": sorted(map(str, named_ok)),
+                                              "got": sorted(got), "expected": sorted(exp)},
+                                     note=f"directory argument + explicit files {[os.path.relpath(str(f), str(root)) for f in named]} "
+                                          f"recursive={rec}: reported {sorted(got)}, expected {sorted(exp)}; tree {tree} patterns {raw}")]
             shutil.rmtree(str(root), ignore_errors=True)
     except BaseException as e:  # noqa
         return [dict(name=name, kind="bounded", verdict="unknown", carries=True, tool="real-tree lint runs", cases=cases,
